@@ -84,6 +84,13 @@ func verifPlantInside(root, rel string) {
 
 func verifUnder(root, name string) bool {
 	c := path.Clean(name)
+	if root == "" {
+		// the working directory: a relative name that does not climb out of it
+		if len(c) == 0 || c[0] == '/' {
+			return false
+		}
+		return !(c == ".." || (len(c) > 2 && c[:3] == "../"))
+	}
 	return c == root || (len(c) > len(root) && c[:len(root)] == root && c[len(root)] == '/')
 }
 
@@ -95,8 +102,18 @@ func verifHarness_C17_static() {
 	exts := []string{"css", "css|js"}[(cfg/12)%2]
 	cached := (cfg/24)%2 == 1
 	enc := (cfg/48)%2 == 1 // UseEncodedPath: the request is given by its escaped spelling
+	emptyRoot := (cfg/96)%2 == 1 // the root argument is "": the working directory
 	root, cleanup := verifSandbox()
 	defer cleanup()
+	sandboxRoot := root
+	if emptyRoot {
+		if !verifSymbolic() {
+			wd, _ := os.Getwd()
+			_ = os.Chdir(root)
+			defer func() { _ = os.Chdir(wd) }()
+		}
+		root = ""
+	}
 	var opts []func(*Router)
 	if cached {
 		opts = append(opts, EnableCaching)
@@ -106,6 +123,9 @@ func verifHarness_C17_static() {
 	}
 	r := New(opts...)
 	single := root + "/c.txt"
+	if emptyRoot {
+		single = "c.txt"
+	}
 	switch kind {
 	case 0:
 		r.StaticDir(prefix, root)
@@ -137,17 +157,17 @@ func verifHarness_C17_static() {
 	}
 	expect := ""
 	if !verifSymbolic() {
-		verifPlant(root, strings.TrimPrefix(req.URL.Path, prefix))
-		verifPlant(root, req.URL.Path)
-		verifPlantInside(root, strings.TrimPrefix(req.URL.Path, prefix))
+		verifPlant(sandboxRoot, strings.TrimPrefix(req.URL.Path, prefix))
+		verifPlant(sandboxRoot, req.URL.Path)
+		verifPlantInside(sandboxRoot, strings.TrimPrefix(req.URL.Path, prefix))
 		if norm := verifSpecNorm(p, false); kind == 1 && strings.HasPrefix(norm, prefix+"/") {
 			// the file an allowed request names: the remainder of the normalised path
 			// (only plain names: net/http cleans dot segments and repeated slashes itself)
 			rel := norm[len(prefix)+1:]
 			if path.Clean("/"+rel) == "/"+rel && !strings.Contains(rel, "\x00") {
-				verifPlantInside(root, rel)
-				if st, err := os.Stat(filepath.Join(root, rel)); err == nil && st.Mode().IsRegular() {
-					if b, err := os.ReadFile(filepath.Join(root, rel)); err == nil {
+				verifPlantInside(sandboxRoot, rel)
+				if st, err := os.Stat(filepath.Join(sandboxRoot, rel)); err == nil && st.Mode().IsRegular() {
+					if b, err := os.ReadFile(filepath.Join(sandboxRoot, rel)); err == nil {
 						expect = string(b)
 					}
 				}
@@ -160,6 +180,14 @@ func verifHarness_C17_static() {
 	verifAssert(k == "", "serving a static request does not panic")
 	if !verifSymbolic() {
 		verifAssert(string(rec.body) != verifSecret, "no request yields content from outside the root")
+		// a fixed battery of well-known escapes on the same router: the secret beside the root by
+		// its absolute name, by dot-dot, by an encoded dot-dot and behind a leading blank
+		secretAbs := filepath.Join(filepath.Dir(sandboxRoot), "secret.css")
+		for _, probe := range []string{prefix + secretAbs, prefix + "/" + secretAbs, prefix + "/../secret.css", prefix + "/%2e%2e/secret.css", prefix + "/ ../secret.css", prefix + "//../secret.css"} {
+			prec := verifNewWriter()
+			_ = verifCatch(func() { r.ServeHTTP(prec, verifRequest("GET", probe)) })
+			verifAssert(string(prec.body) != verifSecret, "no well-known escape yields content from outside the root")
+		}
 		if kind == 1 {
 			body := string(rec.body)
 			servedFile := rec.whStatus == 200 && (body == "INSIDE" || body == "css" || body == "js" || body == "txt")
@@ -176,6 +204,9 @@ func verifHarness_C17_static() {
 	served := 0
 	for i := 0; i < verifEventCount(); i++ {
 		switch verifEventKind(i) {
+		case "FileServer.custom":
+			// a file system of the program's own: what its Open touches is judged by the events it causes
+			served++
 		case "FileServer":
 			served++
 			ok = verifAnd(ok, verifEventStr(i, 0) == root && kind != 3)
@@ -204,7 +235,7 @@ func verifHarness_C17_static() {
 		// only request paths prefix + "/" + non-empty + "." + ext are served
 		want := regexp.MustCompile(`^` + regexp.QuoteMeta(prefix) + `/.+\.(?:` + exts + `)$`).MatchString(verifSpecNorm(p, false))
 		verifAssert(verifIff(served > 0, want), "StaticFiles serves exactly the request paths that end in an allowed extension")
-		if served > 0 {
+		if served > 0 && verifEventKind(0) == "FileServer" {
 			// (the file server cleans "/"+name itself, so one leading slash makes no difference)
 			handed := verifEventStr(0, 1)
 			norm := verifSpecNorm(p, false)
